@@ -1,0 +1,116 @@
+//go:build verif && (verif_all || verif_c01 || verif_c06)
+// +build verif
+// +build verif_all verif_c01 verif_c06
+
+package gocql
+
+// Verification hooks (build tag `verif`) for C06, round f: the program points of Conn.exec as scheduling points.
+// (a) the bare Conn of verif_export_c06b.go with a StreamObserver (public API: its callbacks run inside exec
+// between GetStream and addCall, after addCall, and inside releaseStream after the id has been cleared);
+// (b) Conn.exec with a frame builder that can be made to fail (the 'frame build failure' fate);
+// (c) a controlConn with its real heartBeat / close over a bare Conn. Add-only.
+
+import (
+	"context"
+	"errors"
+	"hash/fnv"
+	"strings"
+	"sync/atomic"
+	"time"
+)
+
+// SetStreamObserver installs o on the bare connection (call before the first Exec).
+func (v *VerifC06Conn) SetStreamObserver(o StreamObserver) { v.c.streamObserver = o }
+
+// VerifC06ErrBuild is the error a failing frame builder returns.
+var VerifC06ErrBuild = errors.New("verif: frame build failure")
+
+type verifC06Builder struct {
+	inner frameBuilder
+	fail  bool
+}
+
+func (b *verifC06Builder) buildFrame(f *framer, streamID int) error {
+	if b.fail {
+		return VerifC06ErrBuild
+	}
+	return b.inner.buildFrame(f, streamID)
+}
+
+// ExecBuild is Exec with a frame builder that fails when failBuild is set. Class additionally: "build" (the
+// builder's error), "inuse" (addCall refused: 'attempting to use stream already in use').
+func (v *VerifC06Conn) ExecBuild(ctx context.Context, stmt string, failBuild bool) VerifC06Result {
+	fr, err := v.c.exec(ctx, &verifC06Builder{inner: &writeQueryFrame{statement: stmt, params: queryParams{consistency: One}}, fail: failBuild}, nil)
+	res := VerifC06Result{Err: err}
+	switch {
+	case err == nil:
+		res.Class = "resp"
+		res.Stream = fr.header.stream
+		res.Op = int(fr.header.op)
+		res.Flags = int(fr.header.flags)
+		res.Length = fr.header.length
+		h := fnv.New32a()
+		h.Write(fr.buf)
+		res.BodyHash = h.Sum32()
+	case errors.Is(err, VerifC06ErrBuild):
+		res.Class = "build"
+	case strings.Contains(err.Error(), "attempting to use stream already in use"):
+		res.Class = "inuse"
+	case errors.Is(err, context.Canceled):
+		res.Class = "ctx"
+	case errors.Is(err, context.DeadlineExceeded):
+		res.Class = "deadline"
+	case errors.Is(err, ErrTimeoutNoResponse):
+		res.Class = "timeout"
+	case errors.Is(err, ErrConnectionClosed):
+		res.Class = "closed"
+	case errors.Is(err, ErrNoStreams):
+		res.Class = "nostreams"
+	default:
+		res.Class = "err"
+	}
+	return res
+}
+
+// Registered is len(c.calls) (0 once closeWithError(err) has taken the map).
+func (v *VerifC06Conn) Registered() int {
+	v.c.mu.Lock()
+	defer v.c.mu.Unlock()
+	return len(v.c.calls)
+}
+
+// ---- control connection ---------------------------------------------------------------------------------
+
+// VerifC06Control is a controlConn (createControlConn) whose connection is a bare Conn; the real heartBeat and
+// close run on it.
+type VerifC06Control struct {
+	ctl  *controlConn
+	conn *VerifC06Conn
+	done chan struct{}
+}
+
+// VerifC06NewControl wires a control connection over the bare connection v (the session is v's stand-in
+// session: no hosts, so reconnect() finds nothing to dial) and starts controlConn.heartBeat in a goroutine.
+func VerifC06NewControl(v *VerifC06Conn) *VerifC06Control {
+	ctl := createControlConn(v.sess)
+	v.sess.control = ctl
+	v.c.errorHandler = ctl
+	ctl.conn.Store(&connHost{conn: v.c, host: &HostInfo{}})
+	k := &VerifC06Control{ctl: ctl, conn: v, done: make(chan struct{})}
+	go func() {
+		ctl.heartBeat()
+		close(k.done)
+	}()
+	return k
+}
+
+// Close is controlConn.close (what Session.Close calls).
+func (k *VerifC06Control) Close() { k.ctl.close() }
+
+// HeartbeatDone is closed when the heartBeat goroutine has returned.
+func (k *VerifC06Control) HeartbeatDone() <-chan struct{} { return k.done }
+
+// State is the controlConn's state word (0 starting, 1 started, -1 closing).
+func (k *VerifC06Control) State() int { return int(atomic.LoadInt32(&k.ctl.state)) }
+
+var _ = time.Second
